@@ -543,3 +543,6 @@ def workload(ctx):
     ctx.floor("solutions_verified", 500)
     ctx.floor("expect:raise", 300)
     ctx.floor("eliminations", 1000)
+
+
+RULE = RULE + '  Later additions: floor division / remainder of targets must be refused; redundant systems whose contradiction lives in a parameter; equation orders.'
